@@ -451,6 +451,16 @@ def big_rows(ctx: Ctx):
             for x, y in real_y_twist_points(p, rng, 4 if quick else 24):
                 pts.append((F(list(x)), F(list(y)), F.one()))
                 pts.append((F(list(x)), -F(list(y)), F.one()))
+        if d == 2:      # points whose FQ2 coordinates are built from FQ-OBJECT coefficients, affine and rescaled
+            FQ1 = ob.FQ
+            for P in list(pts[:3]):
+                a_ = aff(P, 2)
+                if a_ is None:
+                    continue
+                mkq = lambda c_: F([FQ1(c_[0]), FQ1(c_[1])])         # noqa: E731
+                pts.append((mkq(a_[0]), mkq(a_[1]), F([FQ1(1), FQ1(0)])))
+                lam = mkq((rng.randrange(1, p), rng.randrange(p)))
+                pts.append((mkq(a_[0]) * lam, mkq(a_[1]) * lam, lam))
         for P in pts:
             enc_dec(P, d)
         # words: flag combinations x boundary values
